@@ -212,6 +212,16 @@ func (c *Check) Violation(sig, msg string, kind string, data any) {
 	c.ViolationEngine(c.Engine, sig, msg, kind, data)
 }
 
+// Has reports whether a violation with that signature has been recorded (replay of sequential parts).
+func (c *Check) Has(sig string) (string, bool) {
+	c.mu.Lock()
+	defer c.mu.Unlock()
+	if v, ok := c.viol[sig]; ok {
+		return v.Msg, true
+	}
+	return "", false
+}
+
 // ViolationEngine is Violation for an artefact that another binary replays.
 func (c *Check) ViolationEngine(engine, sig, msg string, kind string, data any) {
 	c.mu.Lock()
